@@ -423,7 +423,7 @@ func expectedRequests(in []byte) (reqs [][]byte, stop string) {
 	}
 }
 
-var skipGiants bool // set once an oversized length was not refused: do not try 2^31..2^32-1 then
+var capBroken bool // set once an oversized length was not refused: no giant lengths afterwards
 
 func runFrames(m *mon.M, pool []*testKey) {
 	var fast []*testKey
@@ -433,12 +433,11 @@ func runFrames(m *mon.M, pool []*testKey) {
 			fast = append(fast, k)
 		}
 	}
+	// the caps first: if an oversized announced length is not refused, the random frames whose
+	// framing announces one are skipped afterwards (they would make this process allocate gigabytes)
+	m.Cases("caps", m.N(640, 6400), func(i int64, r *mrand.Rand) { oversizeCase(m, i, r) })
 	total := m.N(30000, 600000)
 	m.Cases("frames", total, func(i int64, r *mrand.Rand) {
-		if i%50 == 7 {
-			oversizeCase(m, i, r)
-			return
-		}
 		st := newFuzzState(r, fast)
 		nf := 1 + r.IntN(4)
 		var in []byte
@@ -484,6 +483,10 @@ func runFrames(m *mon.M, pool []*testKey) {
 			in = append(in, fr...)
 		}
 		reqs, stop := expectedRequests(in)
+		if capBroken && stop == "oversize" {
+			m.Count("skipped_after_cap_violation", 1)
+			return
+		}
 		m.Count("stop:"+stop, 1)
 		rdr := &chunkReader{b: in, chunk: mon.Pick(r, []int{0, 0, 1, 2, 5, 4096})}
 		var out bytes.Buffer
@@ -655,11 +658,20 @@ func clipBytes(b []byte, n int) []byte {
 // oversizeCase: a length prefix of 0 or above the cap must end the
 // conversation without reading (and so without allocating) the body.
 func oversizeCase(m *mon.M, i int64, r *mrand.Rand) {
-	sizes := []uint32{maxAgentBytes + 1, maxAgentBytes + 2, 2 * maxAgentBytes, 64 << 20, 0}
-	if !skipGiants {
-		sizes = append(sizes, 1<<31-1, 1<<31, 1<<32-1, 1<<30)
+	sizes := []uint32{maxAgentBytes + 1, maxAgentBytes + 2, 2 * maxAgentBytes, 64 << 20, 0, 1<<31 - 1, 1 << 31, 1<<32 - 1, 1 << 30}
+	n := sizes[int(i)%len(sizes)]
+	if n > 64<<20 {
+		// a giant length is only tried after the smallest oversized one was refused in this very case
+		probe := &fillerReader{prefix: binary.BigEndian.AppendUint32(nil, maxAgentBytes+1), limit: 1 << 16}
+		var sink bytes.Buffer
+		pv, _ := mon.Panics(func() { agent.ServeAgent(agent.NewKeyring(), rwPair{probe, &sink}) })
+		if pv != nil || probe.taken != 0 {
+			capBroken = true
+		}
+		if capBroken {
+			n = maxAgentBytes + 1
+		}
 	}
-	n := sizes[int(i/50)%len(sizes)]
 	kr := agent.NewKeyring()
 	// optionally one good request first
 	var prefix []byte
@@ -691,7 +703,7 @@ func oversizeCase(m *mon.M, i int64, r *mrand.Rand) {
 		m.Count("oversize_prefix_cases", 1)
 	}
 	if fr.taken != 0 || srvErr == nil || len(splitFrames(out.Bytes())) != good {
-		skipGiants = true
+		capBroken = true
 		key := "oversized-request-length-not-refused"
 		if n == 0 {
 			key = "zero-request-length-not-refused"
@@ -701,7 +713,7 @@ func oversizeCase(m *mon.M, i int64, r *mrand.Rand) {
 	}
 	if d := ms1.TotalAlloc - ms0.TotalAlloc; d > 4<<20 {
 		// other goroutines do not allocate during this stream; a refusal must not allocate the announced size
-		skipGiants = true
+		capBroken = true
 		m.Violation("oversized-request-length-allocated", wit)
 	}
 }
